@@ -1,4 +1,5 @@
 import MidoProofs.Props.C13
+import MidoProofs.TableTie
 #print axioms Mido.iter_integral
 #print axioms Mido.C13_integral
 #print axioms Mido.C13_length
@@ -6,3 +7,4 @@ import MidoProofs.Props.C13
 #print axioms Mido.C13_round
 #print axioms Mido.C13_not_early
 #print axioms Mido.C13_units_exact
+#print axioms Mido.tie_default_tempo
